@@ -45,6 +45,11 @@ def run(prop, tier, seed, replay=None):
                     for p in range(nperm):
                         cid = 'N-%06d-%d' % (len(seen), p)
                         todo.append((cid, c['tree'], None, seed * 1000003 + len(seen) * 7 + p, p > 0))
+            # the one-node tree (root = token), which the bracket reader yields for `(TAG word)`
+            one = {'n': 1, 'nodes': [{'y': [1], 'd': 0, 'tok': True,
+                                      'a': treeio.attr(lab='T', word='w1', lemma='--', morph='--', edge='--')}]}
+            todo.append(('N-one-0', one, None, seed * 1000003, False))
+            todo.append(('N-one-1', one, None, seed * 1000003 + 4, False))
             cases.extend(core.pmap(fam_nav.record_case, todo))
             rep.exhaustive = True
             rnd = random.Random(seed)
